@@ -124,6 +124,12 @@ impl Stats {
         if log.stalled_decisions > 0 {
             self.bump("fault/stalled_worker");
         }
+        if conf.sched.hold {
+            self.bump("sched_extra_points/on");
+        }
+        if log.extra_points > 0 {
+            self.add("fault/preemption_point_in_critical_section_or_refcount", log.extra_points);
+        }
         if log.max_task >= 2 {
             self.sched_digests.push(digest_words(log.decisions.iter().map(|&d| u64::from(d))));
         }
@@ -486,15 +492,21 @@ pub fn minimise<L: Lane>(path: &str, out_path: &str, budget: usize) -> Result<Re
             let conf = &cur.confs[j];
             if !matches!(conf.sched.kind, SchedKind::OldestFirst) {
                 let mut c = cur.clone();
-                c.confs[j].sched = SchedSpec { kind: SchedKind::OldestFirst, seed: 0 };
+                c.confs[j].sched = SchedSpec { kind: SchedKind::OldestFirst, seed: 0, hold: c.confs[j].sched.hold };
                 c.confs[j].trace = None;
                 cands.push(c);
                 if !matches!(conf.sched.kind, SchedKind::RoundRobin) {
                     let mut c = cur.clone();
-                    c.confs[j].sched = SchedSpec { kind: SchedKind::RoundRobin, seed: 0 };
+                    c.confs[j].sched = SchedSpec { kind: SchedKind::RoundRobin, seed: 0, hold: c.confs[j].sched.hold };
                     c.confs[j].trace = None;
                     cands.push(c);
                 }
+            }
+            if conf.sched.hold {
+                let mut c = cur.clone();
+                c.confs[j].sched.hold = false;
+                c.confs[j].trace = None;
+                cands.push(c);
             }
             if let Some(n) = conf.cpu {
                 for m in [1, 2, n / 2, n.saturating_sub(1)] {
@@ -519,7 +531,7 @@ pub fn minimise<L: Lane>(path: &str, out_path: &str, budget: usize) -> Result<Re
             for cf in &mut c.confs {
                 cf.trace = None;
                 if matches!(cf.sched.kind, SchedKind::Trace) {
-                    cf.sched = SchedSpec { kind: SchedKind::OldestFirst, seed: 0 };
+                    cf.sched = SchedSpec { kind: SchedKind::OldestFirst, seed: 0, hold: cf.sched.hold };
                 }
             }
             cands.push(c);
@@ -545,7 +557,7 @@ pub fn minimise<L: Lane>(path: &str, out_path: &str, budget: usize) -> Result<Re
     if let (Some(ci), Some(tr)) = (cur_v.conf_index, cur_v.trace.clone()) {
         if ci < cur.confs.len() {
             let mut pinned = cur.clone();
-            pinned.confs[ci].sched = SchedSpec { kind: SchedKind::Trace, seed: cur.confs[ci].sched.seed };
+            pinned.confs[ci].sched = SchedSpec { kind: SchedKind::Trace, seed: cur.confs[ci].sched.seed, hold: cur.confs[ci].sched.hold };
             pinned.confs[ci].trace = Some(tr);
             let vs = run_isolated::<L>(&pinned);
             if let Some(v) = same_violation(&vs, &want) {
@@ -564,12 +576,12 @@ pub fn minimise<L: Lane>(path: &str, out_path: &str, budget: usize) -> Result<Re
             let try_prefix = |k: usize, tries: &mut usize| -> Option<(Scenario<L::Body>, Violation)> {
                 *tries += 1;
                 let mut c = cur.clone();
-                c.confs[ci].sched = SchedSpec { kind: SchedKind::TracePrefix, seed: cur.confs[ci].sched.seed };
+                c.confs[ci].sched = SchedSpec { kind: SchedKind::TracePrefix, seed: cur.confs[ci].sched.seed, hold: cur.confs[ci].sched.hold };
                 c.confs[ci].trace = Some(tr[..k].to_vec());
                 let v = same_violation(&run_isolated::<L>(&c), &want)?;
                 // pin what was actually executed
                 let mut pinned = c.clone();
-                pinned.confs[ci].sched = SchedSpec { kind: SchedKind::Trace, seed: cur.confs[ci].sched.seed };
+                pinned.confs[ci].sched = SchedSpec { kind: SchedKind::Trace, seed: cur.confs[ci].sched.seed, hold: cur.confs[ci].sched.hold };
                 pinned.confs[ci].trace = v.trace.clone();
                 let v2 = same_violation(&run_isolated::<L>(&pinned), &want)?;
                 Some((pinned, v2))
